@@ -209,6 +209,13 @@ func codecNormalize(kinds map[string]map[string]string) func(j *Job, pkg string,
 func codecJobs(ctx *Ctx, mod string, entries []*corpusEntry, harnesses []string, harnessesFor func(*corpus.Pkg, string) []string, opt JobOptions, perJob int, p *Prepared) {
 	kinds := map[string]map[string]string{}
 	var group []*corpusEntry
+	hints := loadHints(ctx)
+	shapeOf := map[string]string{}
+	p.CostKey = func(fn string) string {
+		// corp/r0131.VH_C06 -> shape|VH_C06 (package numbers change with the corpus)
+		i := strings.LastIndex(fn, ".")
+		return shapeOf[strings.TrimPrefix(fn[:i], "corp/")] + "|" + fn[i+1:]
+	}
 	flush := func() {
 		if len(group) == 0 {
 			return
@@ -233,6 +240,35 @@ func codecJobs(ctx *Ctx, mod string, entries []*corpusEntry, harnesses []string,
 			continue
 		}
 		kinds[e.Name] = e.Pkg.Schema.Kinds()
+		shapeOf[e.Name] = e.Pkg.Shape + "/" + e.Opt.Name
+		// a package known to be heavy gets a job of its own
+		hs := harnesses
+		if harnessesFor != nil {
+			hs = harnessesFor(e.Pkg, ctx.Tier)
+		}
+		cost := 0.0
+		for _, h := range hs {
+			cost += hints.cost(ctx, shapeOf[e.Name]+"|"+h)
+		}
+		if cost > 15 && len(hs) > 0 {
+			// heavy: one job per harness function, and a function expected to run
+			// longer than 30 s is split into path-space shards
+			flush()
+			for _, h := range hs {
+				c := hints.cost(ctx, shapeOf[e.Name]+"|"+h)
+				n := shardCount(c)
+				for i := 0; i < n; i++ {
+					j := &Job{Name: fmt.Sprintf("%s.%s", e.Name, h), Dir: mod, Opt: opt, Meta: map[string]string{},
+						Patterns: []string{"./" + e.Name}, Funcs: []string{"corp/" + e.Name + "." + h}}
+					if n > 1 {
+						j.Name += fmt.Sprintf("#%d/%d", i, n)
+						j.Opt.ShardN, j.Opt.ShardI, j.Opt.ShardDepth = n, i, shardDepth
+					}
+					p.Jobs = append(p.Jobs, j)
+				}
+			}
+			continue
+		}
 		group = append(group, e)
 		if len(group) >= perJob {
 			flush()
